@@ -27,6 +27,12 @@ type c08Case struct {
 	Default  []string  `json:"default"` // rules; {ROOT} is replaced by the root dir
 	UserName string    `json:"user"`
 	UserRule []string  `json:"user_rules,omitempty"`
+	// UserEmpty: the user has an entry with an empty rule list (no rule can
+	// match: everything is denied, the default rules do not apply).
+	UserEmpty bool `json:"user_empty,omitempty"`
+	// Decoy: rules of another user in the same configuration; must never
+	// influence this user's verdicts.
+	Decoy []string `json:"decoy,omitempty"`
 	Requests []string  `json:"requests"` // {ROOT}-relative templates or relative paths (cwd = root)
 }
 
@@ -42,6 +48,7 @@ type c08Answer struct {
 type c08Result struct {
 	Root    string      `json:"root"`
 	Answers []c08Answer `json:"answers"`
+	NoUser  bool        `json:"no_user,omitempty"` // user.New refused the user (no rules at all)
 }
 
 func init() {
@@ -219,8 +226,17 @@ func c08GenCase(rng *rand.Rand) c08Case {
 		return rules
 	}
 	c.Default = mkRules()
-	if rng.Intn(2) == 0 {
+	switch rng.Intn(8) {
+	case 0, 1, 2, 3:
 		c.UserRule = mkRules()
+	case 4:
+		c.UserEmpty = true
+	}
+	if rng.Intn(2) == 0 {
+		c.Decoy = mkRules()
+		if rng.Intn(3) == 0 {
+			c.Decoy = []string{"^/.*"}
+		}
 	}
 	// requests: every spelling
 	for _, f := range files {
@@ -285,9 +301,22 @@ func c08(r *vlib.Run) int {
 		if len(c.UserRule) > 0 {
 			rules = c.UserRule
 		}
+		if c.UserEmpty {
+			rules = nil
+			r.Count("cases_user_with_empty_rule_list", 1)
+		}
+		if len(c.Decoy) > 0 {
+			r.Count("cases_with_other_users_rules_present", 1)
+		}
 		var sub []string
 		for _, ru := range rules {
 			sub = append(sub, c08Subst(ru, res.Root))
+		}
+		if res.NoUser {
+			r.Count("cases_user_refused_for_lack_of_rules", 1)
+			if len(rules) > 0 {
+				r.Violation("user-with-rules-refused", map[string]interface{}{"rules": rules, "user": c.UserName})
+			}
 		}
 		for _, a := range res.Answers {
 			want := !a.ResolveErr && a.Regular && rulesVerdict(sub, a.Resolved)
@@ -340,7 +369,7 @@ func c08E2E(r *vlib.Run) {
 		if si == 0 {
 			// deterministic probe of the recorded finding c08.space-in-path
 			c.Nodes = append(c.Nodes, c08Node{Path: "allowed/we ird.log", Kind: "file"})
-			c.Default, c.UserRule = []string{".*"}, nil
+			c.Default, c.UserRule, c.UserEmpty = []string{".*"}, nil, false
 			c.Requests = []string{"{ROOT}/allowed/we ird.log"}
 		}
 		// the tree lives in the server's working directory
@@ -363,6 +392,23 @@ func c08E2E(r *vlib.Run) {
 			}
 			perms["Users"] = map[string]interface{}{"tester": ur}
 			rules = ur
+		}
+		if c.UserEmpty {
+			perms["Users"] = map[string]interface{}{"tester": []string{}}
+			rules = nil
+			r.Count("e2e_servers_user_with_empty_rule_list", 1)
+		}
+		if len(c.Decoy) > 0 {
+			var dr []string
+			for _, ru := range c.Decoy {
+				dr = append(dr, c08Subst(ru, root))
+			}
+			um, _ := perms["Users"].(map[string]interface{})
+			if um == nil {
+				um = map[string]interface{}{}
+			}
+			um["someoneelse"] = dr
+			perms["Users"] = um
 		}
 		fl, err := startFleet(r, name, 1, map[string]interface{}{"Permissions": perms, "MaxConcurrentCats": 50}, nil, "error")
 		if err != nil {
